@@ -123,7 +123,7 @@ def obligations(tier, seed):
     for key, st in tpl:
         if st.kind in ("drop", "delete", "truncate", "drop_view", "create", "insert_values"):
             continue
-        ob = RenameOb(key, st, "ansi", "rename", budget=BUDGET[tier], seed=seed)
+        ob = RenameOb(key, st, "ansi", "rename", budget=(min(BUDGET[tier], 5) if key.startswith("rand/") else BUDGET[tier]), seed=seed)
         if not ob.has_local:
             continue
         obs.append(ob)
